@@ -113,7 +113,7 @@ CHECKS['C11'] = ('exploration',
 
 CHECKS['C15'] = ('exploration',
     'CrossHair/z3 path exploration over (constants, requested outputs) selectors; every explored path loads real .xlsx files fully and from the chosen outputs and compares the calculated values',
-    'Bounded exhaustive exploration driven by the symbolic executor: for two real workbooks (sheets referring to each other, whole-row and - on a few paths - whole-column references, a defined name, an array formula, readers of its spilled cell alone and inside larger rectangles, two sheets with one title, cross-workbook references both ways), ExcelModel().from_ranges(*outputs).finish().calculate() gives on every requested output exactly the value of the fully loaded workbooks, for the explored constants and the listed output sets (18 single outputs, 13 combinations, either request order; a seeded sample up to 128 sets in the thorough tier); completing / finishing the partial model - and a deep copy of it - again changes neither its nodes nor its results.',
+    'Bounded exhaustive exploration driven by the symbolic executor: for two real workbooks (sheets referring to each other, whole-row and - on a few paths - whole-column references, a defined name, an array formula, readers of its spilled cell alone and inside larger rectangles, two sheets with one title, cross-workbook references both ways), ExcelModel().from_ranges(*outputs).finish().calculate() gives on every requested output exactly the value of the fully loaded workbooks, for the explored constants and the listed output sets (18 single outputs, 13 combinations, either request order; a seeded sample up to 64 sets in the thorough tier); completing / finishing the partial model - and a deep copy of it - again changes neither its nodes nor its results.',
     'Selectors only, one workbook family written by the harness (harness/books.py), output sets from a list, whole-column references on 2-16 paths only (1048576 cells assembled per model): exploration of a file-backed scenario, nothing about arbitrary workbooks. ' + TB,
     'DESIGN.md §7.6')
 CHECKS['C16'] = ('exploration',
